@@ -143,7 +143,8 @@ def case_conv(R, res, lines, expect):
     finally:
         tu.SaveBestEpoch._save_model = real_save
     kept = model.saved[-1] if model.saved else None
-    # monitors (independent reference)
+    # monitors (independent reference); all of them are evaluated: one result may break several clauses (C18 and C20)
+    found = []
     sign = 1 if direction == "min" else -1
     bests, beps = [], []
     for c in curves:
@@ -152,16 +153,19 @@ def case_conv(R, res, lines, expect):
         bests.append(sign * bv)
     ref_obj = sum(bests) / len(bests)
     if abs(md[obj.name] - ref_obj) > 1e-9:
-        raise Violation("C18", f"objective {md[obj.name]} of executions {curves} ({direction}) != mean of per-execution bests {ref_obj}", {"tag": "mean-of-bests"})
+        found.append(Violation("C18", f"objective {md[obj.name]} of executions {curves} ({direction}) != mean of per-execution bests {ref_obj}", {"tag": "mean-of-bests"}))
     ref_step = int(statistics.mean(beps))
     if step != ref_step:
-        raise Violation("C18", f"best step {step} != int(mean(best epochs {beps})) = {ref_step}", {"tag": "best-step-list"})
+        found.append(Violation("C18", f"best step {step} != int(mean(best epochs {beps})) = {ref_step}", {"tag": "best-step-list"}))
     flatc = [sign * x for c in curves for x in c]
     ref_kept = flatc.index(min(flatc))
     if kept != ref_kept:
-        raise Violation("C20", f"checkpoint kept at flat epoch {kept}, first global best of {curves} ({direction}) is {ref_kept}", {"tag": "kept"})
+        found.append(Violation("C20", f"checkpoint kept at flat epoch {kept}, first global best of {curves} ({direction}) is {ref_kept}", {"tag": "kept"}))
     if nexec == 1 and (kept != step or md[obj.name] != curves[0][kept]):
-        raise Violation("C20", f"single execution: kept epoch {kept} / best step {step} / objective {md[obj.name]} disagree for {curves}", {"tag": "kept-single"})
+        found.append(Violation("C20", f"single execution: kept epoch {kept} / best step {step} / objective {md[obj.name]} disagree for {curves}", {"tag": "kept-single"}))
+    if found:
+        found[0].also = found[1:]
+        raise found[0]
     lines.append(dict(suite="metrics", op="conv", minimize=direction == "min", curves=curves))
     q = Fraction(md[obj.name]).limit_denominator(1000)
     expect.append(f"obj={q.numerator}/{q.denominator} step={step} kept={kept} epochs=" + ",".join(str(e) for e in beps))
@@ -214,7 +218,8 @@ def run(seed, tier, n=None):
             kind = i % 3
             nt = case_hist(RR, res, lines, expect) if kind == 0 else (case_conv(RR, res, lines, expect) if kind == 1 else (case_plain(RR, res) or False))
         except Violation as v:
-            res.violations.append({"pid": v.pid, "what": v.what, "sig": v.sig, "replay": {"suite": "metrics", "seed": sseed, "kind": i % 3}})
+            for x in [v] + list(getattr(v, "also", [])):
+                res.violations.append({"pid": x.pid, "what": x.what, "sig": x.sig, "replay": {"suite": "metrics", "seed": sseed, "kind": i % 3}})
             continue
         doc = {"suite": "metrics", "seed": sseed, "kind": i % 3}
         spans.append((len(all_lines), lines, expect, doc))
@@ -241,7 +246,8 @@ def replay(doc):
         k = doc["kind"]
         case_hist(RR, res, lines, expect) if k == 0 else (case_conv(RR, res, lines, expect) if k == 1 else case_plain(RR, res))
     except Violation as v:
-        res.violations.append({"pid": v.pid, "what": v.what, "sig": v.sig, "replay": doc})
+        for x in [v] + list(getattr(v, "also", [])):
+            res.violations.append({"pid": x.pid, "what": x.what, "sig": x.sig, "replay": doc})
         return res
     out = run_driver(lines) if lines else []
     compare(res, lines, expect, out, doc)
